@@ -165,30 +165,39 @@ Theorem C12_replicated_axis_normalisation : forall (rank : nat) (a : Z) (k : nat
 Proof. exact norm_axis_spec. Qed.
 Print Assumptions C12_replicated_axis_normalisation.
 
-(** For every conforming operand, replicate count and admissible axes (negative or not,
-    output axis explicit or defaulted to the input axis) whose output position exists: the
-    declared shapes carry the replicate count at the normalised positions and equal the
-    shapes of the vmap result and of adj on the declared output; other shapes are rejected.
-    (Defaulted output axis beyond the operand's output rank: Findings/C12_refuted.v.) *)
+(** For every conforming operand, replicate count and pair of axes the constructor accepts
+    (negative or not, output axis explicit or defaulted to the input axis): the declared shapes
+    carry the replicate count at the normalised positions and equal the shapes of the vmap
+    result and of adj on the declared output; other shapes are rejected. *)
 Theorem C12_replicated_declared_eq_actual : forall (v w : opv) (n ia : Z) (oa : option Z) (si so : shape) (ki ko : nat),
   ish (o_m v) = Plain si -> osh (o_m v) = Plain so ->
   conforms v -> conforms_adj v ->
-  drep_axes (length si) (length so) ia oa = Some (ki, ko) -> (ko <= length so)%nat ->
+  drep_axes (length si) (length so) ia oa = Some (ki, ko) ->
   op_drep_z v n ia oa = Some w ->
   o_m w = mkmeta (Plain (insert_at ki n si)) (Plain (insert_at ko n so)) (idt (o_m v)) (odt (o_m v)) /\
   conforms w /\ conforms_adj w /\ rejects w.
 Proof. exact drep_declared_eq_actual. Qed.
 Print Assumptions C12_replicated_declared_eq_actual.
 
-Theorem C12_replicated_explicit_axis_in_range : forall ri ro ia z ki ko,
-  drep_axes ri ro ia (Some z) = Some (ki, ko) -> (ko <= ro)%nat.
-Proof. exact drep_explicit_axis_in_range. Qed.
-Print Assumptions C12_replicated_explicit_axis_in_range.
+(** Accepted axes are in range of the operand's input / output rank ... *)
+Theorem C12_replicated_axes_in_range : forall ri ro ia oa ki ko,
+  drep_axes ri ro ia oa = Some (ki, ko) -> (ki <= ri)%nat /\ (ko <= ro)%nat.
+Proof. exact drep_axes_in_range. Qed.
+Print Assumptions C12_replicated_axes_in_range.
+
+(** ... in particular a defaulted output axis (= input position) that does not exist in the
+    operand's output is rejected at construction (the former finding, repaired by 760899e). *)
+Theorem C12_replicated_default_axis_rejected : forall (v : opv) (n ia : Z) (si so : shape) (ki : nat),
+  ish (o_m v) = Plain si -> osh (o_m v) = Plain so ->
+  norm_axis (length si) ia = Some ki -> (length so < ki)%nat ->
+  op_drep_z v n ia None = None.
+Proof. exact drep_default_axis_rejected. Qed.
+Print Assumptions C12_replicated_default_axis_rejected.
 
 Theorem C12_replicated_declared_eq_spec : forall (e : ox) (v w : opv) (n ia : Z) (oa : option Z) (si so : shape) (ki ko : nat),
   build e = Some v -> spec e = Some (o_m v) ->
   ish (o_m v) = Plain si -> osh (o_m v) = Plain so ->
-  drep_axes (length si) (length so) ia oa = Some (ki, ko) -> (ko <= length so)%nat ->
+  drep_axes (length si) (length so) ia oa = Some (ki, ko) ->
   build (XDRep e n ia oa) = Some w ->
   spec (XDRep e n ia oa) = Some (o_m w).
 Proof. exact drep_declared_eq_spec. Qed.
@@ -200,6 +209,11 @@ Example C12_example_replicated :
     (build (XDRep (XLeaf true (Plain [3; 4]) (Plain [3]) false F32 None (FPromote F32) AAuto) 5 (-2) (Some (-1))))
   = Some (mkmeta (Plain [3; 5; 4]) (Plain [3; 5]) F32 F32, Some (Plain [3; 5], F32), Some (Plain [3; 5; 4], F32)).
 Proof. vm_compute. reflexivity. Qed.
+
+Example C12_example_replicated_rejected :
+  build (XDRep (XLeaf true (Plain [3; 4]) (Plain [3]) false F32 None (FPromote F32) AAuto) 5 (-1) None) = None
+  /\ spec (XDRep (XLeaf true (Plain [3; 4]) (Plain [3]) false F32 None (FPromote F32) AAuto) 5 (-1) None) = None.
+Proof. vm_compute. split; reflexivity. Qed.
 
 (** non-vacuity: a well-formed tree with every generic form; hypotheses are satisfiable *)
 Definition ex_leaf := XLeaf true (Plain [3; 4]) (Plain [3; 4]) false C64 None (FPromote F32) AAuto.
